@@ -37,6 +37,8 @@ Proof.
   - cbn [tokrank] in H. destruct (bin T o) as [q|].
     + rewrite (H q eq_refl). reflexivity.
     + destruct (suf T o) as [q|]; [|reflexivity]. rewrite (H q eq_refl). reflexivity.
+  - cbn [tokrank] in H. destruct (callr T) as [q|]; [|reflexivity].
+    rewrite (H q eq_refl). reflexivity.
   - cbn [tokrank] in H. destruct (bin T sym_index) as [q|]; [|reflexivity].
     rewrite (H q eq_refl). reflexivity.
 Qed.
@@ -45,6 +47,7 @@ Lemma ls_ok_None : forall t, wf T t -> ls_ok T None t.
 Proof.
   induction t; intro W; cbn [ls_ok]; try exact I.
   - destruct W as [q [Q [_ [W1 _]]]]. split; [exists q; split; [exact Q|reflexivity]|auto].
+  - destruct W as [q [Q [W1 _]]]. split; [exists q; split; [exact Q|reflexivity]|auto].
   - destruct W as [q [Q [W1 _]]]. split; [exists q; split; [exact Q|reflexivity]|auto].
   - destruct W as [q [Q [W1 _]]]. split; [exists q; split; [exact Q|reflexivity]|auto].
 Qed.
